@@ -187,6 +187,10 @@ def applyMsg (ds : DS) (stake : Gov.StakeView) (w : MW) (m : Json) : Option (Exc
     let w0 := (data.take 64).toString
     let isZero := w0.toList.all (· == '0')
     let target := if data.length ≥ 64 then ((w0.drop 24).toString) else ""
+    -- SELFDESTRUCT naming an address without an account: the contract may not create accounts (Burrow's permission model,
+    -- outside the Cvm model) and the call fails; the comparison is "a failed call changes nothing"
+    if J.strOf m "kind" == "suicideTo" && J.has m "targetExists" && !J.boolOf m "targetExists" then some (err "cvm:beneficiary-has-no-account")
+    else
     some ((Cvm.call "uctk" w.l w.v w.k (J.strOf m "caller") (J.strOf m "callee") (J.intOf m "value") w0 (isZero || data == "") target (data != "")).map
       (fun (l, k) => { w with l := l, k := k }))
   | "shield.deposit" => some ((Shield.deposit (shieldEnv ds) w.sh (J.strOf m "from") [("uctk", J.intOf m "amt")]).map (fun s => { w with sh := s }))
@@ -384,7 +388,11 @@ def handleTx (ds : DS) (j : Json) : IO DS := do
   let r0 : Option (Except Err MW) := if anteOk then applyMsgs ds preStake msgs { pre with l := lFee } else some (.error ⟨"basic:ante"⟩)
   -- the staking module is not modelled: whether its own message is accepted is taken from the implementation
   let r0 : Option (Except Err MW) := match r0 with
-    | some (.ok _) => if ds.hasShield && kind.startsWith "staking." && code != 0 then some (.error ⟨"staking:refused"⟩) else r0
+    | some (.ok _) =>
+      if ds.hasShield && kind.startsWith "staking." && code != 0 then
+        -- refused by the message's own ValidateBasic (an amount of zero): baseapp stops before the ante handler, no fee (gasWanted = 0)
+        if J.intOf j "gasWanted" == 0 then some (.error ⟨"basic:staking"⟩) else some (.error ⟨"staking:refused"⟩)
+      else r0
     | _ => r0
   -- the dry run of the claim handler at submission goes through the staking store; a panic there is a failed transaction the model cannot foresee
   let r0 : Option (Except Err MW) := match r0 with
@@ -853,7 +861,9 @@ def handleEnd (ds : DS) (j : Json) : IO DS := do
           ds := stat ds s!"sit.c12.certifier_round_ended.{q.status}"
           let (pass, decisive) := GovD.specSecurityRule pre.c.certifiers.length votes pre.g.params.security
           -- the head count is taken when the proposal is tallied: decisive only if the council did not change in this block
-          if decisive && pre.c.certifiers.length == ds.cert.certifiers.length then
+          -- (its members, not just their number: one proposal may remove a certifier and the next one add another)
+          let members (c : Cert.State) : List Addr := (c.certifiers.map (·.addr)).mergeSort (fun a b => a ≤ b)
+          if decisive && members pre.c == members ds.cert then
             if p.kind == "certifierUpdate" then
               if pass != (q.status == 4 || q.status == 6) && !(q.status == 3 && !pass) then
                 ds ← finding ds "monitor" "C12" "certifier_round_rule" s!"proposal {p.id}: certifiers pass={pass}, status {q.status}"
